@@ -215,8 +215,24 @@ class ModelFittingDataTree(ProblemSingleObjective):
                     weights_from_file=weights_from_file,
                 )
 
-            self.all_target_data = targets.isel(indexers=target_fit_range.to_dict())
+            self.all_target_data = targets.isel(
+                indexers=self._get_target_indexers(target_fit_range)
+            )
             self.target_full_scale = targets
+
+    @staticmethod
+    def _get_target_indexers(
+        target_fit_range: FitRange2D | FitRange3D,
+    ) -> dict[str, slice]:
+        """Get the indexers of a target fit range for the dimensions of the targets.
+
+        The readout dimension of the target(s) is 'readout_time' (and not 'time').
+        """
+        indexers: dict[str, slice] = dict(target_fit_range.to_dict())
+        if "time" in indexers:
+            indexers["readout_time"] = indexers.pop("time")
+
+        return indexers
 
     def get_bounds(self) -> tuple[Sequence[float], Sequence[float]]:
         """Get the box bounds of the problem (lower_boundary, upper_boundary).
@@ -255,7 +271,7 @@ class ModelFittingDataTree(ProblemSingleObjective):
                 )
 
             self.weighting_from_file = weights_data_array.isel(
-                indexers=self.targ_fit_range.to_dict()
+                indexers=self._get_target_indexers(self.targ_fit_range)
             )
 
         elif weights is not None:
